@@ -19,7 +19,7 @@ class Stuck(Exception):
 
 
 class Env:
-    __slots__ = ('vars', 'stacks', 'locals', 'pushback', 'events', 'ctl', 'viol', 'texts')
+    __slots__ = ('vars', 'stacks', 'locals', 'pushback', 'events', 'ctl', 'viol', 'texts', 'log')
 
     def __init__(self, vars_, stacks):
         self.vars = dict(vars_)          # tracked scalar variables: name -> int
@@ -29,6 +29,7 @@ class Env:
         self.events = []
         self.viol = []
         self.texts = {}                  # text members followed concretely (run_text only): name -> tuple of bytes | None (unknown)
+        self.log = None                  # run_text only: the events of the whole run so far (tuple), None = not kept
 
     def copy(self):
         e = Env(self.vars, self.stacks)
@@ -37,11 +38,12 @@ class Env:
         e.events = list(self.events)
         e.viol = list(self.viol)
         e.texts = dict(self.texts)
+        e.log = self.log
         return e
 
     def key(self):
-        if self.texts:
-            return (tuple(sorted(self.vars.items())), tuple(sorted(self.stacks.items())), tuple(sorted(self.texts.items(), key=lambda kv: kv[0])))
+        if self.texts or self.log is not None:
+            return (tuple(sorted(self.vars.items())), tuple(sorted(self.stacks.items())), tuple(sorted(self.texts.items(), key=lambda kv: kv[0])), self.log)
         return (tuple(sorted(self.vars.items())), tuple(sorted(self.stacks.items())))
 
 
@@ -93,6 +95,32 @@ class Machine:
                 elif id(s_) not in inside and tv.get('int') and not tv.get('ptr') and v.get('init') is not None and const_val(v['init']) is not None and v.get('n') not in self.d['tracked']:
                     cands[v['id']] = (v.get('n'), const_val(v['init']))
         self.local_arrays = arrays
+        # flags: locals that live across iterations and only ever take constant values (`bool blank = true; ... blank = false;`)
+        for vid, (name, init) in list(cands.items()):
+            writes = []
+            okf = True
+            for e in fn_exprs(f):
+                if e.get('k') == 'bin' and e.get('op', '').endswith('=') and e['op'] not in ('==', '!=', '<=', '>='):
+                    tgt = strip_lv(e['x'])
+                    if tgt.get('k') == 'var' and tgt.get('id') == vid:
+                        if e['op'] != '=' or const_val(e['y']) is None:
+                            okf = False
+                        writes.append(e)
+                elif e.get('k') == 'un' and e.get('op') in ('post++', 'post--', 'pre++', 'pre--', '&'):
+                    tgt = strip_lv(e['e'])
+                    if tgt.get('k') == 'var' and tgt.get('id') == vid:
+                        okf = False
+                elif e.get('k') == 'call':
+                    for a in e.get('a', []) or []:
+                        a_ = a
+                        while isinstance(a_, dict) and a_.get('k') == 'cast' and a_.get('ck') == 'NoOp':
+                            a_ = a_['e']
+                        if isinstance(a_, dict) and a_.get('k') == 'var' and a_.get('id') == vid:
+                            okf = False         # handed to a callee as an lvalue
+            unique = sum(1 for s_ in ir.walk_stmts(f['body']) if s_.get('k') == 'decl' for v in s_['vars'] if v.get('n') == name) == 1
+            if okf and writes and unique and self.d.get('auto_flags', True):
+                self.d['tracked'][name] = ('local', init)
+                cands.pop(vid)
         if not arrays or not cands:
             return
         uses = {}
@@ -501,6 +529,8 @@ class Machine:
             o = strip_lv(o['e'])
         if o.get('k') == 'mem' and o.get('f') in env.texts and strip_lv(o.get('b') or {'k': 'this'}).get('k') == 'this':
             return o['f']
+        if o.get('k') == 'var' and o.get('vk') == 'local' and o.get('n') in env.texts:
+            return o['n']          # a String local of the parser function (declared outside the character loop)
         return None
 
     def text_value(self, e, env, c):
@@ -973,11 +1003,13 @@ class Machine:
                                 work.append(e2)
         return self
 
-    def run_text(self, text, max_envs=4000, on_prefix=None):
+    def run_text(self, text, max_envs=4000, on_prefix=None, keep_log=False):
         """the configurations the machine can be in after the bytes of `text`, from the initial configuration (every fork on an
         untracked value is followed; push-backs re-dispatch the byte; paths with a violation or a return are dropped)"""
         first = self.initial_env()
         first.texts = dict((n_, ()) for n_ in self.d.get('texts', ()))
+        if keep_log:
+            first.log = ()
         envs = {first.key(): first}
         stop_when = self.d.get('stop_state')
         for b in text:
@@ -997,6 +1029,8 @@ class Machine:
                             raise Stuck('control %s leaves the loop body' % (ctl,))
                         if ctl == 'break':
                             continue
+                        if e2.log is not None and e2.events:
+                            e2.log = e2.log + tuple(tuple(ev) for ev in e2.events)
                         if e2.pushback >= 1:
                             if depth > 12:
                                 continue
